@@ -13,6 +13,7 @@ from __future__ import annotations
 
 import json
 
+from .. import batch_battery as bb
 from .. import batch_corr as bc
 from .. import batch_gen as bg
 from . import c10 as c10mod
@@ -67,7 +68,7 @@ ASSUMPTIONS = c10mod.ASSUMPTIONS + ["single fault: only one statement fails (the
 def input_of(case):
     return {"table": case["table"], "ops": case["ops"], "recreate": case["recreate"], "copy_from": case["copy_from"],
             "fault": case["fault"], "scope": case["scope"], "iso": case.get("iso", "default"), "tddl": case.get("tddl"),
-            "fkind": case.get("fkind", "exception"),
+            "fkind": case.get("fkind", "exception"), "pr": case.get("pr"),
             **({"two_step": case["two_step"]} if case.get("two_step") else {})}
 
 
@@ -179,16 +180,51 @@ WITNESSES = {
 }
 
 
+def battery(ctx):
+    """oracle-only: the copy_from / option battery of harness/batch_battery.py under a fault at every statement"""
+    kinds = list(bb.bi.FAULT_KINDS)
+    j = 0
+    for name in bb.ITEMS:
+        n = len(bb.run_item(name)["stmts"])
+        for k in range(n):
+            combos = (("none", "default"), ("swallow", "default"), ("outer", "autocommit"))
+            for scope, iso in (combos if ctx.thorough else (combos[k % 3], combos[(k + 1) % 3])):
+                j += 1
+                fk = kinds[j % len(kinds)]
+                r = bb.run_item(name, fault=k, scope=scope, iso=iso, fkind=fk)
+                case = bb.case_of(name, k, scope, iso, fk)
+                ctx.evaluation()
+                ctx.hist("battery", name)
+                if not applicable(r) or not r["before"]["orig"]:
+                    continue
+                ctx.nontrivial(("battery", name, k, scope, iso))
+                for view in ("fresh", "same"):
+                    s = ctx.drv.ask1(bc.spec11_op(case, r, view))
+                    if s.get("holds") is not True:
+                        why = s.get("why") or [json.dumps(s)]
+                        ctx.fail({"battery": name, "ops": case["ops"], "fault": k, "scope": scope, "iso": iso, "fkind": fk, "recreate": case["recreate"],
+                                  "copy_from": case["copy_from"]},
+                                 "%s: %s (inspected on the %s connection)" % (why[0].split(":")[0], "; ".join(why)[:500], view),
+                                 impl=bc.brief(r), tags=sorted({w.split(":")[0] for w in why}))
+                        break
+
+
 def run(ctx, n_cases=None, rng_name="main"):
     rng = ctx.rng(rng_name)
-    n = n_cases or (500 if ctx.thorough else 190)
+    if rng_name == "main":
+        battery(ctx)
+    n = n_cases or (500 if ctx.thorough else 160)
     pending = []
     for i in range(n):
         t = bg.gen_table(rng, big=ctx.thorough and i % 5 == 0)
         ops = bg.gen_ops(rng, t)
         recreate = rng.choice(["always", "always", "always", "auto"])
         copy_from = rng.random() < 0.3
-        base = bc.new_case(t, ops, recreate, copy_from, None, rng.choice(SCOPES), rng.choice(ISOS), rng.choice(TDDLS))
+        if i < 2:
+            ops = bg.ordering_battery(t)[i * 3 + rng.randrange(2)]      # the add_column position branches, deterministically
+            recreate = "always"
+        pr = bg.gen_partial_reordering(rng, t, ops) if rng.random() < 0.1 else None
+        base = bc.new_case(t, ops, recreate, copy_from, None, rng.choice(SCOPES), rng.choice(ISOS), rng.choice(TDDLS), pr=pr)
         r0 = one(ctx, base, pending)
         nst = len(r0["stmts"])
         if r0["outcome"] != "ok" and nst:
@@ -196,13 +232,13 @@ def run(ctx, n_cases=None, rng_name="main"):
             for sc in SCOPES:
                 for iso in ISOS:
                     if (sc, iso) != (base["scope"], base["iso"]):
-                        one(ctx, bc.new_case(t, ops, recreate, copy_from, None, sc, iso, rng.choice(TDDLS)), pending)
+                        one(ctx, bc.new_case(t, ops, recreate, copy_from, None, sc, iso, rng.choice(TDDLS), pr=pr), pending)
         if r0["outcome"] == "ok" and nst:
             ks = list(range(nst)) if ctx.thorough else sorted(rng.sample(range(nst), min(nst, 3)))
             for k in ks:
                 for sc in (SCOPES if ctx.thorough else [rng.choice(SCOPES)]):
                     for iso in (ISOS if ctx.thorough else [rng.choice(ISOS)]):
-                        one(ctx, bc.new_case(t, ops, recreate, copy_from, k, sc, iso, rng.choice(TDDLS), rng.choice(FKINDS)), pending)
+                        one(ctx, bc.new_case(t, ops, recreate, copy_from, k, sc, iso, rng.choice(TDDLS), rng.choice(FKINDS), pr=pr), pending)
         if r0["outcome"] == "ok" and "renameTmp" in r0["stmts"] and rng.random() < (0.5 if ctx.thorough else 0.4):
             two_step(ctx, base, r0["stmts"].index("renameTmp"), rng, pending)
         if len(pending) >= 200:
@@ -255,6 +291,10 @@ def classify(failure):
 
 def replay(ctx, case):
     inp = case["input"]
+    if inp.get("battery"):
+        r = bb.run_item(inp["battery"], inp.get("fault"), inp.get("scope", "none"), inp.get("iso", "default"), inp.get("fkind", "exception"))
+        c = bb.case_of(inp["battery"], inp.get("fault"), inp.get("scope", "none"), inp.get("iso", "default"), inp.get("fkind", "exception"))
+        return {"impl": bc.brief(r), "spec_fresh": ctx.drv.ask1(bc.spec11_op(c, r, "fresh")), "spec_same": ctx.drv.ask1(bc.spec11_op(c, r, "same"))}
     if inp.get("two_step"):
         s1, s2 = inp["two_step"]["step1"], inp["two_step"]["step2"]
         c1 = bc.new_case(inp["table"], inp["ops"], inp.get("recreate", "always"), s1["copy_from"], s1["fault"], s1["scope"],
@@ -264,7 +304,7 @@ def replay(ctx, case):
             return {"step1": bc.brief(r1), "note": "step 1 did not leave the rows under the temporary name only"}
     else:
         c = bc.new_case(inp["table"], inp["ops"], inp.get("recreate", "always"), inp.get("copy_from", False), inp.get("fault"),
-                        inp.get("scope", "none"), inp.get("iso", "default"), inp.get("tddl"), inp.get("fkind", "exception"))
+                        inp.get("scope", "none"), inp.get("iso", "default"), inp.get("tddl"), inp.get("fkind", "exception"), inp.get("pr"))
         r = bc.run_impl(c)
     m = ctx.drv.ask1(bc.model_op(c, r))
     out = {"impl": bc.brief(r), "model": {"stmts": m.get("stmts"), "outcome": m.get("outcome")}, "differences": bc.compare(c, r, m)}
